@@ -153,7 +153,7 @@ func TestVerifC16_oprf_tamper(t *testing.T) {
 		}
 	}
 	r.Set("base_cases", len(jobs))
-	r.NotExhaustive("declared sub-alphabets: " + verifc16.LevelNote + "; bit flips at level 0 every 29th bit, level 1 every 5th bit (plus all bits of the first and last byte), level 2/3 every bit; " +
+	r.NotExhaustive("declared sub-alphabets: " + verifc16.LevelNote + "; bit flips at level 0 every 29th bit, level 1 every 5th bit (plus all bits of the first and last byte), level 2/3 every bit (P-521 at level 2: every second bit); " +
 		"the 2000-byte info is flipped at every bit of its first and last 64 bytes and bit 0 of every 64th byte below level 3")
 	inputs := c16Inputs()
 	infos := c16Infos()
@@ -164,6 +164,9 @@ func TestVerifC16_oprf_tamper(t *testing.T) {
 		key := c16Keys(s.Grp, r.Seed())[j.ki]
 		baseID := fmt.Sprintf("%s/%s/key=%s/info=%s/batch=%s", s.SuiteID, c16ModeName[j.mode], key.name, c16InfoName(j.ii), c16SeqName(j.seq))
 		if r.Replaying() && !strings.HasPrefix(r.ReplayCase(), baseID) {
+			return
+		}
+		if r.Expired() {
 			return
 		}
 		p, err := c16NewParty(s, j.mode, key)
@@ -205,6 +208,9 @@ func TestVerifC16_oprf_tamper(t *testing.T) {
 		g := s.G
 		n := len(ev.Elements)
 		stride := map[int]int{0: 29, 1: 5}[lvl]
+		if lvl == 2 && s.Name == "P-521" {
+			stride = 2 // thorough tier on P-521: every second bit (one verification costs 25 P-256 ones)
+		}
 
 		// ---- evaluated elements replaced ----
 		for i := 0; i < n; i++ {
@@ -422,7 +428,9 @@ func TestVerifC16_oprf_tamper(t *testing.T) {
 		}
 	})
 	c16Col.Flush(r)
-	r.RequireCounter("honest_base_cases", int64(len(jobs)))
+	if !r.Expired() {
+		r.RequireCounter("honest_base_cases", int64(len(jobs)))
+	}
 	r.RequireCounter("altered_rejected", 5000)
 	r.RequireCounter("bitflips_decodable_element", 200)
 	r.RequireCounter("bitflips_proof", 1000)
